@@ -45,7 +45,8 @@ KF_UNSET_STR = 'C03-unset-optional-string-reads-empty'
 
 def plan(tier, seed):
     per = 14 if tier == 'quick' else 400
-    return [{'seed': seed * 1000 + i, 'n': per} for i in range(16)]
+    # the order in which groups of a file are visited depends on string hashing: vary it
+    return [{'seed': seed * 1000 + i, 'n': per, 'hashseed': i % 5} for i in range(16)]
 
 
 def required(tier):
@@ -82,6 +83,8 @@ def one_store(rng, workdir: Path, rec, k):
 
     nprng = np.random.default_rng(rng.getrandbits(32))
     extras = [n for n in ('vx_simple', 'vx_species', 'vx_modes') if rng.random() < 0.6]
+    if rng.random() < 0.3:
+        extras.append('vx_optfirst')
     if not extras and rng.random() < 0.8:
         extras = [rng.choice(['vx_species', 'vx_modes', 'vx_simple'])]
     shape = rng.choice(['prefix', 'gapped', 'per-field', 'full', 'single'])
